@@ -151,4 +151,13 @@ def Ring.uncovered (r : Ring) : List RHost :=
                           (decide (h' = h) || r.allHosts.any (fun x => decide (x ≠ h) && x.addr == h.addr))
      | _ => false)))
 
+/-- the addresses `a ≤ n` for which `getHostByIP a` answers "known address" with something else than a
+host of the ring with address `a` — a stale by-address entry (the property: none, after every history) -/
+def Ring.staleAddrs (r : Ring) (n : Nat) : List Nat :=
+  (List.range (n + 1)).filter (fun a =>
+    match r.getHostByIP a with
+    | (some h, true) => !(decide (h ∈ r.allHosts) && h.addr == a)
+    | (none, true) => true
+    | _ => false)
+
 end Ring
